@@ -25,6 +25,12 @@ use std::ops::Range;
 // and everything is cut into accuracy-sized lines. Every call into the fitter runs on a worker thread
 // with a time limit; after three time-outs the remaining evaluations are skipped.
 static TIMEOUTS: std::sync::atomic::AtomicU32 = std::sync::atomic::AtomicU32::new(0);
+/// law evaluations that returned without a verdict because the input was outside the property's domain
+static SKIPS: [std::sync::atomic::AtomicU32; 4] = [std::sync::atomic::AtomicU32::new(0), std::sync::atomic::AtomicU32::new(0), std::sync::atomic::AtomicU32::new(0), std::sync::atomic::AtomicU32::new(0)];
+fn skip(k: usize) -> Option<(String, String)> {
+    SKIPS[k].fetch_add(1, std::sync::atomic::Ordering::Relaxed);
+    None
+}
 const TIME_LIMIT_S: u64 = 20;
 
 /// Err(true): timed out (report it); Err(false): skipped because of earlier time-outs
@@ -122,11 +128,13 @@ struct Toy {
     end_cusp: u8,
     end_cusp_len: f64,
     cusp_calls: RefCell<u64>,
+    /// when `Some`, every `sample_pt_tangent(t, sign)` call is recorded
+    tan_log: RefCell<Option<Vec<(f64, f64)>>>,
 }
 
 impl Toy {
     fn new(base: Base) -> Toy {
-        Toy { base, jump: None, nan_tan: false, end_cusp: 0, end_cusp_len: 0.0, cusp_calls: RefCell::new(0) }
+        Toy { base, jump: None, nan_tan: false, end_cusp: 0, end_cusp_len: 0.0, cusp_calls: RefCell::new(0), tan_log: RefCell::new(None) }
     }
     fn corners(&self) -> usize {
         match &self.base {
@@ -159,6 +167,9 @@ impl Toy {
 
 impl ParamCurveFit for Toy {
     fn sample_pt_tangent(&self, t: f64, sign: f64) -> CurveFitSample {
+        if let Some(log) = self.tan_log.borrow_mut().as_mut() {
+            log.push((t, sign));
+        }
         let (p, d) = self.pos(t, sign);
         let tangent = if self.nan_tan { Vec2::new(f64::NAN, f64::NAN) } else { d };
         CurveFitSample { p, tangent }
@@ -531,6 +542,20 @@ enum Analytic {
     Sine(Point, f64, f64, f64),
     LogSpiral(Point, f64, f64),
     ArchSpiral(Point, f64, f64),
+    /// a gentle parabola arc of length scale `len` with a LOCALISED feature: a smooth plateau of height `h`
+    /// over `[s0 + rr, s0 + rr + w]` (fractions of the parameter range [0,1]) with quintic ramps of width `rr`:
+    /// (origin, rot, len, amp, h, s0, rr, w)
+    Bump(Point, f64, f64, f64, f64, f64, f64, f64),
+}
+
+fn smoothstep5(t: f64) -> (f64, f64) {
+    if t <= 0.0 {
+        (0.0, 0.0)
+    } else if t >= 1.0 {
+        (1.0, 0.0)
+    } else {
+        (t * t * t * (10.0 - 15.0 * t + 6.0 * t * t), 30.0 * t * t * (1.0 - t) * (1.0 - t))
+    }
 }
 
 impl Analytic {
@@ -552,6 +577,16 @@ impl Analytic {
             Analytic::LogSpiral(c, a, b) => {
                 let rr = a * (b * th).exp();
                 (Point::new(c.x + rr * th.cos(), c.y + rr * th.sin()), Vec2::new(rr * (b * th.cos() - th.sin()), rr * (b * th.sin() + th.cos())))
+            }
+            Analytic::Bump(o, rot, len, amp, h, s0, rr, w) => {
+                let u = th;
+                let (up, dup) = smoothstep5((u - s0) / rr);
+                let (dn, ddn) = smoothstep5((s0 + 2.0 * rr + w - u) / rr);
+                let y = amp * 4.0 * u * (1.0 - u) + h * up * dn;
+                let dy = amp * 4.0 * (1.0 - 2.0 * u) + h * (dup * dn - up * ddn) / rr;
+                let (s, co) = rot.sin_cos();
+                let (x, dx) = (len * u, len);
+                (Point::new(o.x + co * x - s * y, o.y + s * x + co * y), Vec2::new(co * dx - s * dy, s * dx + co * dy))
             }
             Analytic::ArchSpiral(c, a, b) => {
                 let rr = a + b * th;
@@ -587,6 +622,90 @@ fn gen_analytic(r: &mut Rng, size: f64) -> (Analytic, f64, f64, f64) {
             (Analytic::ArchSpiral(c, size * r.uniform(0.05, 0.3), size * r.uniform(0.02, 0.1)), th0, th0 + r.uniform(1.0, 12.0), 0.8)
         }
     }
+}
+
+/// Where a localised feature starts (fraction of the parameter range), given its total width:
+/// often at the very end or start of the curve, or next to a dyadic split point k/2^j (+- a few %).
+fn feature_start(r: &mut Rng, width: f64) -> f64 {
+    let s0 = match r.below(20) {
+        0..=7 => 1.0 - width - r.uniform(0.001, 0.006),
+        8..=10 => r.uniform(0.001, 0.01),
+        11..=15 => {
+            let j = 1 + r.below(3);
+            let k = 1 + r.below((1 << j) - 1);
+            k as f64 / (1u64 << j) as f64 + r.uniform(-0.03, 0.03) - if r.bool() { width } else { 0.0 }
+        }
+        _ => r.uniform(0.0, 1.0 - width),
+    };
+    s0.clamp(0.001, 1.0 - width - 0.001)
+}
+
+/// An analytic curve with a localised feature of height `hk` x accuracy: plateau 5.2..5.6 % of the parameter
+/// range (wider than one sampling step of the fitter, 1/21), ramps 1.2..1.4 %.
+fn gen_bump(r: &mut Rng, acc: f64, hk: f64) -> Analytic {
+    let h = acc * hk * if r.bool() { 1.0 } else { -1.0 };
+    let len = h.abs() * 10f64.powf(r.uniform(2.4, 3.6));
+    let (rr, w) = (r.uniform(0.012, 0.014), r.uniform(0.052, 0.056));
+    let s0 = feature_start(r, 2.0 * rr + w);
+    Analytic::Bump(Point::new(r.uniform(-len, len), r.uniform(-len, len)), r.uniform(0.0, 6.3), len, len * r.uniform(-0.15, 0.15), h, s0, rr, w)
+}
+
+/// Parameters of a chain of `n` (36..40) G1 cubics sampled (Hermite) from such a curve; the feature takes exactly
+/// the three segments i0, i0+1, i0+2 (ramp, plateau, ramp; 4..8 % of the length), the other segments share the
+/// rest evenly. Returns (n, i0, curve).
+fn gen_bump_chain(r: &mut Rng, acc: f64, hk: f64) -> (usize, usize, Analytic) {
+    let n = 36 + r.below(5) as usize;
+    let h = acc * hk * if r.bool() { 1.0 } else { -1.0 };
+    let len = h.abs() * 10f64.powf(r.uniform(2.4, 3.6));
+    let (rr, w) = (r.uniform(0.01, 0.02), r.uniform(0.02, 0.04));
+    let width = 2.0 * rr + w;
+    let i0 = match r.below(20) {
+        0..=7 => n - 3,
+        8..=9 => 0,
+        10..=14 => {
+            let j = 1 + r.below(3);
+            let k = 1 + r.below((1 << j) - 1);
+            (((k as usize * n) >> j) as i64 + r.range_i(-4, 1)).clamp(0, n as i64 - 3) as usize
+        }
+        _ => r.below(n as u64 - 2) as usize,
+    };
+    let s0 = (1.0 - width) / (n - 3) as f64 * i0 as f64;
+    (n, i0, Analytic::Bump(Point::new(r.uniform(-len, len), r.uniform(-len, len)), r.uniform(0.0, 6.3), len, len * r.uniform(-0.15, 0.15), h, s0, rr, w))
+}
+
+fn bump_chain_path(n: usize, i0: usize, a: &Analytic) -> BezPath {
+    let (s0, rr, w) = match *a {
+        Analytic::Bump(_, _, _, _, _, s0, rr, w) => (s0, rr, w),
+        _ => (0.0, 0.01, 0.02),
+    };
+    let width = 2.0 * rr + w;
+    let rest = (1.0 - width) / (n - 3) as f64;
+    let mut knots = Vec::with_capacity(n + 1);
+    for i in 0..=i0 {
+        knots.push(if i == i0 { s0 } else { rest * i as f64 });
+    }
+    knots.push(s0 + rr);
+    knots.push(s0 + rr + w);
+    let e0 = s0 + width;
+    for i in 0..=(n - 3 - i0) {
+        knots.push(if i == n - 3 - i0 { 1.0 } else { e0 + rest * i as f64 });
+    }
+    let mut bp = BezPath::new();
+    let (mut p, mut d) = a.at(knots[0]);
+    bp.move_to(p);
+    for k in 1..knots.len() {
+        let hh = knots[k] - knots[k - 1];
+        let (q, e) = a.at(knots[k]);
+        bp.curve_to(p + d * (hh / 3.0), q - e * (hh / 3.0), q);
+        p = q;
+        d = e;
+    }
+    bp
+}
+
+/// accuracy for the localised-feature families: log-uniform in [1e-4, 1]
+fn acc_bump(r: &mut Rng) -> f64 {
+    10f64.powf(r.uniform(-4.0, 0.0))
 }
 
 /// a path for the simplify structure correspondence: smooth runs, corners, degenerate elements, several sub-paths
@@ -1050,8 +1169,84 @@ fn corr_try_fit_line(r: &mut Rng, thorough: bool, o: &mut Out) {
     }
 }
 
+/// CurveDist::from_curve's sample parameters, observed as the arguments of the source's
+/// `sample_pt_tangent(., 1.0)` during the real `fit_to_cubic` (calls 3..24; the first two are the range ends)
+fn corr_curvedist(r: &mut Rng, thorough: bool, o: &mut Out) {
+    let n = if thorough { 600 } else { 60 };
+    let mut done = 0;
+    let mut tries = 0;
+    while done < n && tries < 20 * n {
+        tries += 1;
+        let size = *r.pick(&[1.0, 10.0, 100.0]);
+        let base = match r.below(3) {
+            0 => Base::Cubic(gen_smooth_cubic(r, size)),
+            1 => Base::Sine(size, size * r.uniform(0.01, 0.3), r.uniform(0.3, 2.0)),
+            _ => Base::Arc(Point::new(0.0, 0.0), size, r.uniform(0.0, 6.0), r.uniform(0.2, 3.0)),
+        };
+        let src = Toy::new(base);
+        let (s, e) = match r.below(5) {
+            0 => (0.0, 1.0),
+            1 => {
+                let j = 1 + r.below(6);
+                let k = r.below(1 << j);
+                (k as f64 / (1u64 << j) as f64, (k + 1) as f64 / (1u64 << j) as f64)
+            }
+            _ => {
+                let s = r.uniform(0.0, 0.9);
+                (s, (s + r.uniform(0.01, 1.0)).min(1.0))
+            }
+        };
+        let acc = size * *r.pick(&[1e-2, 1e-3, 1e-5]);
+        if src.sample_pt_tangent(s, 1.0).p.distance(src.sample_pt_tangent(e, -1.0).p) <= acc {
+            continue; // short chord: try_fit_line, no CurveDist
+        }
+        *src.tan_log.borrow_mut() = Some(Vec::new());
+        let res = fit_to_cubic(&src, s..e, acc);
+        let log = src.tan_log.borrow_mut().take().unwrap();
+        if log.len() != 24 || log[0] != (s, 1.0) || log[1] != (e, -1.0) || log[2..].iter().any(|x| x.1 != 1.0) {
+            o.violation("corr-curvedist:call-pattern", format!("fit_to_cubic made {} sample_pt_tangent calls on [{}, {}], expected 2 + 22", log.len(), s, e), format!("{{\"range\":[{},{}]}}", s, e));
+            continue;
+        }
+        let ts: Vec<f64> = log[2..].iter().map(|x| x.0).collect();
+        o.case(14, "curvedist-sample-params", vec![s, e], ts, true, if res.is_some() { "accepted" } else { "rejected" });
+        done += 1;
+    }
+    // TODO(hook hooks/C18-curvedist-samples.diff, not yet in /repo): the retained samples and the `spicy` flag.
+    // Enable once `kurbo::verif::verif_curvedist_samples` exists (tested with KV_REPO on a scratch worktree):
+    /*
+    for _ in 0..n {
+        let size = *r.pick(&[1.0, 10.0, 100.0]);
+        let base = match r.below(4) {
+            0 => Base::Cubic(gen_smooth_cubic(r, size)),
+            1 => Base::Sine(size, size * r.uniform(0.01, 0.5), r.uniform(0.3, 6.0)),
+            2 => Base::Poly((0..4).map(|_| Point::new(r.coord(), r.coord())).collect()),
+            _ => Base::Arc(Point::new(0.0, 0.0), size, r.uniform(0.0, 6.0), r.uniform(0.2, 6.0)),
+        };
+        let src = Toy::new(base);
+        let s = r.uniform(0.0, 0.9);
+        let e = (s + r.uniform(0.01, 1.0)).min(1.0);
+        *src.tan_log.borrow_mut() = Some(Vec::new());
+        let (kept, spicy) = kurbo::verif::verif_curvedist_samples(&src, s..e);
+        let log = src.tan_log.borrow_mut().take().unwrap();
+        let mut args = vec![s, e];
+        for (t, sign) in &log {
+            let sm = src.sample_pt_tangent(*t, *sign);
+            args.extend([*t, sm.p.x, sm.p.y, sm.tangent.x, sm.tangent.y]);
+        }
+        let mut obs = vec![if spicy { 1.0 } else { 0.0 }];
+        for (p, tn) in &kept {
+            obs.extend([p.x, p.y, tn.x, tn.y]);
+        }
+        if log.len() == 22 {
+            o.case(15, "curvedist-samples", args, obs, true, if spicy { "spicy" } else { "calm" });
+        }
+    }
+    */
+}
+
 fn corr(r: &mut Rng, thorough: bool, o: &mut Out) {
     corr_kernels(r, thorough, o);
+    corr_curvedist(r, thorough, o);
     corr_sbp(r, thorough, o);
     corr_try_fit_line(r, thorough, o);
     corr_fit(r, thorough, o);
@@ -1353,9 +1548,16 @@ fn check_fitted_gen(fs: &dyn Fn(usize, f64) -> Point, nsrc: usize, scale: f64, o
     }
     let thr = factor() * acc + 1e-9 * scale;
     if let Some((cls, p, d)) = hausdorff_violation(fs, nsrc, &fit, thr) {
+        // cross-check of the distance to the fitted path with the crate's own nearest-point search
+        let xc = if cls.starts_with("source") {
+            let m = fit.iter().map(|c| c.nearest(p, 1e-12).distance_sq).fold(f64::INFINITY, f64::min).sqrt();
+            format!("; CubicBez::nearest gives {}", m)
+        } else {
+            String::new()
+        };
         return fail(
             &format!("{}:{}", what, cls),
-            format!("accuracy {}: point {:?} at distance {} = {:.3} x accuracy ({} source pieces, {} fitted cubics)", acc, p, d, d / acc, nsrc, fit.len()),
+            format!("accuracy {}: point {:?} at distance {} = {:.3} x accuracy ({} source pieces, {} fitted cubics{})", acc, p, d, d / acc, nsrc, fit.len(), xc),
         );
     }
     None
@@ -1371,7 +1573,7 @@ fn law_fit_chain(a: &[f64]) -> Option<(String, String)> {
     let els = dec_els(&a[2..]);
     let src = path_cubics(&els)?;
     if src.is_empty() || !chain_is_smooth(&src) || !(1e-4..=1.0).contains(&acc) {
-        return None; // outside the property's domain
+        return skip(0); // outside the property's domain
     }
     let what = if mode { "fit-opt" } else { "fit" };
     let els2 = els.clone();
@@ -1410,13 +1612,14 @@ impl ParamCurveFit for AnaSrc {
     }
 }
 
-fn enc_analytic(a: &Analytic) -> [f64; 6] {
+fn enc_analytic(a: &Analytic) -> [f64; 10] {
     match *a {
-        Analytic::Circle(c, r) => [0.0, c.x, c.y, r, 0.0, 0.0],
-        Analytic::Ellipse(c, a, b, rot) => [1.0, c.x, c.y, a, b, rot],
-        Analytic::Sine(c, a, b, rot) => [2.0, c.x, c.y, a, b, rot],
-        Analytic::LogSpiral(c, a, b) => [3.0, c.x, c.y, a, b, 0.0],
-        Analytic::ArchSpiral(c, a, b) => [4.0, c.x, c.y, a, b, 0.0],
+        Analytic::Circle(c, r) => [0.0, c.x, c.y, r, 0.0, 0.0, 0.0, 0.0, 0.0, 0.0],
+        Analytic::Ellipse(c, a, b, rot) => [1.0, c.x, c.y, a, b, rot, 0.0, 0.0, 0.0, 0.0],
+        Analytic::Sine(c, a, b, rot) => [2.0, c.x, c.y, a, b, rot, 0.0, 0.0, 0.0, 0.0],
+        Analytic::LogSpiral(c, a, b) => [3.0, c.x, c.y, a, b, 0.0, 0.0, 0.0, 0.0, 0.0],
+        Analytic::ArchSpiral(c, a, b) => [4.0, c.x, c.y, a, b, 0.0, 0.0, 0.0, 0.0, 0.0],
+        Analytic::Bump(o, rot, len, amp, h, s0, rr, w) => [5.0, o.x, o.y, rot, len, amp, h, s0, rr, w],
     }
 }
 fn dec_analytic(v: &[f64]) -> Analytic {
@@ -1426,11 +1629,12 @@ fn dec_analytic(v: &[f64]) -> Analytic {
         1 => Analytic::Ellipse(c, v[3], v[4], v[5]),
         2 => Analytic::Sine(c, v[3], v[4], v[5]),
         3 => Analytic::LogSpiral(c, v[3], v[4]),
-        _ => Analytic::ArchSpiral(c, v[3], v[4]),
+        4 => Analytic::ArchSpiral(c, v[3], v[4]),
+        _ => Analytic::Bump(c, v[3], v[4], v[5], v[6], v[7], v[8], v[9]),
     }
 }
 
-/// args: [mode, accuracy, analytic(6), th0, th1]
+/// args: [mode, accuracy, analytic(10), th0, th1]
 fn g_fit_analytic(r: &mut Rng) -> Vec<f64> {
     let size = 10f64.powf(r.uniform(0.0, 3.0));
     let (a, th0, th1, _) = gen_analytic(r, size);
@@ -1442,8 +1646,10 @@ fn g_fit_analytic(r: &mut Rng) -> Vec<f64> {
 
 fn law_fit_analytic(v: &[f64]) -> Option<(String, String)> {
     let (mode, acc) = (v[0] != 0.0, v[1]);
-    let a = dec_analytic(&v[2..8]);
-    let (th0, th1) = (v[8], v[9]);
+    let a = dec_analytic(&v[2..12]);
+    let (th0, th1) = (v[12], v[13]);
+    let bump = matches!(a, Analytic::Bump(..));
+    let what = if mode { "analytic-opt" } else { "analytic" };
     let out = match guarded(move || {
         let src = AnaSrc { a, th0, th1 };
         if mode {
@@ -1453,9 +1659,10 @@ fn law_fit_analytic(v: &[f64]) -> Option<(String, String)> {
         }
     }) {
         Ok(o) => o,
-        Err(f) => return timeout_violation(if mode { "analytic-opt" } else { "analytic" }, Err(f)),
+        Err(f) => return timeout_violation(what, Err(f)),
     };
-    let n = (((th1 - th0).abs() / 0.5).ceil() as usize).clamp(1, 60);
+    // pieces for the distance oracle: fine enough to resolve a localised feature
+    let n = if bump { 100 } else { (((th1 - th0).abs() / 0.5).ceil() as usize).clamp(1, 60) };
     let h = (th1 - th0) / n as f64;
     let f = |i: usize, t: f64| a.at(th0 + (i as f64 + t) * h).0;
     let mut scale = 1.0f64;
@@ -1463,7 +1670,7 @@ fn law_fit_analytic(v: &[f64]) -> Option<(String, String)> {
         let p = f(i.min(n - 1), if i == n { 1.0 } else { 0.0 });
         scale = scale.max(p.x.abs()).max(p.y.abs());
     }
-    check_fitted_gen(&f, n, scale, &out, acc, if mode { "analytic-opt" } else { "analytic" })
+    check_fitted_gen(&f, n, scale, &out, acc, what)
 }
 
 // ---------------------------------------------------------------- law: offset of a cubic
@@ -1501,7 +1708,7 @@ fn law_offset(v: &[f64]) -> Option<(String, String)> {
     let (mode, acc, d) = (v[0] != 0.0, v[1], v[2]);
     let c = CubicBez::new((v[3], v[4]), (v[5], v[6]), (v[7], v[8]), (v[9], v[10]));
     if !chain_is_smooth(&[c]) || !(kappa_max(&c) * d.abs() <= 0.8) || !(1e-4..=1.0).contains(&acc) || d == 0.0 {
-        return None;
+        return skip(1);
     }
     let what = if mode { "offset-opt" } else { "offset" };
     let scale = [c.p0, c.p1, c.p2, c.p3].iter().fold(1.0f64, |m, p| m.max(p.x.abs()).max(p.y.abs())) + d.abs();
@@ -1517,7 +1724,7 @@ fn law_offset(v: &[f64]) -> Option<(String, String)> {
     for k in 0..=128 {
         let q = off(0, k as f64 / 128.0);
         if cs.dist_upper(q, f64::INFINITY) < d.abs() - 1e-6 * scale {
-            return None;
+            return skip(2);
         }
     }
     let out = match guarded(move || {
@@ -1762,8 +1969,56 @@ fn law_simplify(v: &[f64]) -> Option<(String, String)> {
     None
 }
 
+// ---------------------------------------------------------------- law: sources with a LOCALISED feature
+
+/// A smooth plateau of height 3..10 x accuracy and width 4..8 % of the length on a gentle arc, anywhere on the
+/// curve — in particular at its very end/start and next to dyadic split points — as a Hermite chain of 36..40
+/// G1 cubics (kind 0) or as an analytic source through the trait (kind 1). The fitter only ever looks at 20
+/// interior samples of the range it tries as one piece; this family asks whether that is enough.
+/// args: [kind, mode, accuracy, n, i0, analytic(10)]
+fn g_fit_feature(r: &mut Rng) -> Vec<f64> {
+    let acc = acc_bump(r);
+    let hk = if r.bool() { r.uniform(3.0, 4.5) } else { r.uniform(4.5, 10.0) };
+    let kind = r.below(3) == 0;
+    let mode = r.below(2) as f64;
+    let (n, i0, a) = if kind { (0, 0, gen_bump(r, acc, hk)) } else { gen_bump_chain(r, acc, hk) };
+    let mut v = vec![if kind { 1.0 } else { 0.0 }, mode, acc, n as f64, i0 as f64];
+    v.extend(enc_analytic(&a));
+    v
+}
+
+fn law_fit_feature(v: &[f64]) -> Option<(String, String)> {
+    let (kind, acc) = (v[0] != 0.0, v[2]);
+    let (n, i0) = (v[3] as usize, v[4] as usize);
+    let a = dec_analytic(&v[5..15]);
+    let h = match a {
+        Analytic::Bump(_, _, _, _, h, ..) => h,
+        _ => return None,
+    };
+    if !(1e-4..=1.0).contains(&acc) {
+        return None;
+    }
+    let band = if h.abs() <= 4.5 * acc { "feature-low" } else { "feature-high" };
+    let res = if kind {
+        let mut w = vec![v[1], acc];
+        w.extend_from_slice(&v[5..15]);
+        w.extend([0.0, 1.0]);
+        law_fit_analytic(&w)
+    } else {
+        if !(4..=40).contains(&n) || i0 + 3 > n {
+            return None;
+        }
+        let bp = bump_chain_path(n, i0, &a);
+        let mut w = vec![v[1], acc];
+        w.extend(enc_els(bp.elements()));
+        law_fit_chain(&w)
+    };
+    res.map(|(cls, d)| (format!("{}:{}", band, cls), format!("feature height {:.2} x accuracy: {}", h.abs() / acc, d)))
+}
+
 fn laws() -> Vec<Law> {
     vec![
+        Law { name: "fit_feature", gen: g_fit_feature, check: law_fit_feature, weight: 3 },
         Law { name: "fit_chain", gen: g_fit_chain, check: law_fit_chain, weight: 4 },
         Law { name: "fit_analytic", gen: g_fit_analytic, check: law_fit_analytic, weight: 2 },
         Law { name: "offset", gen: g_offset, check: law_offset, weight: 4 },
@@ -1771,4 +2026,13 @@ fn laws() -> Vec<Law> {
     ]
 }
 
-fn extra(_r: &mut Rng, _thorough: bool, _o: &mut Out) {}
+fn extra(_r: &mut Rng, _thorough: bool, o: &mut Out) {
+    use std::sync::atomic::Ordering::Relaxed;
+    o.notes.push(format!(
+        "law inputs outside the property's domain (no verdict): fit_chain {} (non-smooth chain), offset {} (curvature bound) + {} (global interference); time-outs {}",
+        SKIPS[0].load(Relaxed),
+        SKIPS[1].load(Relaxed),
+        SKIPS[2].load(Relaxed),
+        TIMEOUTS.load(Relaxed)
+    ));
+}
